@@ -561,7 +561,100 @@ def ob_writer(ob, tier, seed):
     return res
 
 
-RUNNERS = {"writer": ob_writer, "validate": ob_validate, "m1": ob_m1, "m2": ob_m2, "m4": ob_m4, "m5": ob_m5, "m6": ob_m6, "spec64": ob_spec64}
+def run_native_hist():
+    """Native confirmation battery for the history glue (real server, VRF, hashes, verifier of /repo)."""
+    env = dict(os.environ)
+    env["CARGO_NET_OFFLINE"] = "true"
+    env.pop("RUSTFLAGS", None)
+    tdir = os.path.join(BUILD, "native_hist")
+    p = subprocess.run(["cargo", "build", "--release", "--offline", "--target-dir", tdir], cwd=os.path.join(VERIF, "native_hist"), env=env,
+                       stdout=subprocess.PIPE, stderr=subprocess.STDOUT, timeout=3600)
+    if p.returncode != 0:
+        return {"status": "error", "detail": "native_hist build failed: " + p.stdout.decode(errors="replace")[-300:]}
+    try:
+        q = subprocess.run([os.path.join(tdir, "release", "native_hist")], stdout=subprocess.PIPE, stderr=subprocess.STDOUT, timeout=1200)
+    except subprocess.TimeoutExpired:
+        return {"status": "error", "detail": "native_hist timed out"}
+    out = q.stdout.decode(errors="replace")
+    fl = [l for l in out.splitlines() if l.startswith("FAIL ")]
+    if q.returncode == 1 and fl:
+        return {"status": "reproduced", "detail": fl[0], "lines": fl[:20]}
+    if q.returncode == 0:
+        return {"status": "not_reproduced", "detail": "the native battery (real server and verifier, histories with up to 32 versions, every component tampered with) passed"}
+    return {"status": "error", "detail": "native_hist: " + out[-300:]}
+
+
+def run_native_bin(name, timeout=1200):
+    env = dict(os.environ)
+    env["CARGO_NET_OFFLINE"] = "true"
+    env.pop("RUSTFLAGS", None)
+    tdir = os.path.join(BUILD, "native_hist")
+    p = subprocess.run(["cargo", "build", "--release", "--offline", "--target-dir", tdir], cwd=os.path.join(VERIF, "native_hist"), env=env,
+                       stdout=subprocess.PIPE, stderr=subprocess.STDOUT, timeout=3600)
+    if p.returncode != 0:
+        return {"status": "error", "detail": "native battery build failed: " + p.stdout.decode(errors="replace")[-300:]}
+    try:
+        q = subprocess.run([os.path.join(tdir, "release", name)], stdout=subprocess.PIPE, stderr=subprocess.STDOUT, timeout=timeout)
+    except subprocess.TimeoutExpired:
+        return {"status": "error", "detail": name + " timed out"}
+    out = q.stdout.decode(errors="replace")
+    fl = [l for l in out.splitlines() if l.startswith("FAIL ")]
+    if q.returncode == 1 and fl:
+        return {"status": "reproduced", "detail": fl[0], "lines": fl[:20]}
+    if q.returncode == 0:
+        return {"status": "not_reproduced", "detail": "the native battery %s (real code of /repo) passed" % name}
+    return {"status": "error", "detail": name + ": " + out[-300:]}
+
+
+def ob_txn(ob, tier, seed):
+    from . import txn
+    funcs, mir_s, mir_lines = dump_mir("akd")
+    res = txn.run_obligation(ob, tier, seed, funcs)
+    res.setdefault("extra", {})["akd_mir_dump_s"] = mir_s
+    if res["verdict"] == "fail":
+        rp = run_native_bin("native_txn")
+        if rp["status"] == "reproduced":
+            os.makedirs(REPLAYS, exist_ok=True)
+            path = os.path.join(REPLAYS, "C15_%s.json" % ob["id"].replace(".", "_"))
+            json.dump({"property": "C15", "obligation": ob["id"], "kind": "txn", "failed": res.get("failures"), "native": rp.get("lines")}, open(path, "w"), indent=1)
+            rp["path"] = path
+        res["replay"] = rp
+    return res
+
+
+def ob_epochreads(ob, tier, seed):
+    from . import epochreads
+    funcs, mir_s, mir_lines = dump_mir("akd")
+    res = epochreads.run_obligation(ob, tier, seed, funcs)
+    res.setdefault("extra", {})["akd_mir_dump_s"] = mir_s
+    if res["verdict"] == "fail":
+        rp = run_native_bin("native_stitch")
+        if rp["status"] == "reproduced":
+            os.makedirs(REPLAYS, exist_ok=True)
+            path = os.path.join(REPLAYS, "C13_%s.json" % ob["id"].replace(".", "_"))
+            json.dump({"property": "C13", "obligation": ob["id"], "kind": "epochreads", "failed": res.get("failures"), "native": rp.get("lines")}, open(path, "w"), indent=1)
+            rp["path"] = path
+        res["replay"] = rp
+    return res
+
+
+def ob_glue(ob, tier, seed):
+    from . import histglue
+    funcs, mir_s, mir_lines = dump_mir("akd_core")
+    res = histglue.run_obligation(ob, tier, seed, funcs)
+    res.setdefault("extra", {})["akd_core_mir_dump_s"] = mir_s
+    if res["verdict"] == "fail":
+        rp = run_native_hist()
+        if rp["status"] == "reproduced":
+            os.makedirs(REPLAYS, exist_ok=True)
+            path = os.path.join(REPLAYS, "C07_%s.json" % ob["id"].replace(".", "_"))
+            json.dump({"property": "C07", "obligation": ob["id"], "kind": "glue", "failed": res.get("failures"), "native": rp.get("lines")}, open(path, "w"), indent=1)
+            rp["path"] = path
+        res["replay"] = rp
+    return res
+
+
+RUNNERS = {"glue": ob_glue, "txn": ob_txn, "epochreads": ob_epochreads, "writer": ob_writer, "validate": ob_validate, "m1": ob_m1, "m2": ob_m2, "m4": ob_m4, "m5": ob_m5, "m6": ob_m6, "spec64": ob_spec64}
 
 
 def run_obligation(ob, tier, seed):
@@ -678,7 +771,14 @@ def replay_file(path):
             print("VIOLATION property=%s replay=%s" % (rec["property"], path))
             return 1
         return 0 if r["verdict"] == "pass" else 2
-    st = replay_record(rec)
+    if rec.get("kind") == "glue":
+        st = run_native_hist()
+    elif rec.get("kind") == "txn":
+        st = run_native_bin("native_txn")
+    elif rec.get("kind") == "epochreads":
+        st = run_native_bin("native_stitch")
+    else:
+        st = replay_record(rec)
     print("replay %s %s: %s (%s)" % (rec["property"], rec["obligation"], st["status"], st.get("detail", "")))
     if st["status"] == "reproduced":
         print("VIOLATION property=%s replay=%s" % (rec["property"], path))
